@@ -865,6 +865,11 @@ impl<'a> Gen<'a> {
             }
             _ => self.term(rng, depth.max(3), false),
         };
+        // keep the formatted text of an extreme value within a few thousand characters: the lexical
+        // parser is quadratic in the input length
+        if t.size() > 400 {
+            t = self.term(rng, depth.max(3), false);
+        }
         self.lengthen_names(&mut t, rng);
         t
     }
